@@ -110,19 +110,11 @@ async def exchange(case):
         data = apply_fault(script[step]["data"], case["fault"], rk)
         transient = case["fault"]["type"] == "empty-read"
         if transient:
-            # one read() yields b'' while the stream goes on (the unit tests' notion of an empty reply); injected by
-            # wrapping the instance's reader, skipped when that private attribute is not reachable
-            rd = getattr(cl.api, "_reader", None)
-            if rd is None or not hasattr(rd, "read"):
-                return "skip", None, [], [], None
-            orig, count = rd.read, [0]
-
-            async def read(n=-1):
-                got = await orig(n)
-                i = count[0]
-                count[0] += 1
-                return b"" if i == step else got
-            rd.read = read
+            # one read() yields b'' while the stream goes on (the unit tests' notion of an empty reply); injected on
+            # asyncio.StreamReader.read for this connection only (tcpdev.install_empty_read_injector)
+            from ..fake import tcpdev
+            tcpdev.install_empty_read_injector()
+            tcpdev.EMPTY_READS[cl.conn.peer] = {"k": step, "count": 0}
         elif case["fault"]["type"] == "slow":
             script[step]["sleep"] = case["fault"]["secs"]       # the right reply, late (event-loop time, harness-owned clock)
         elif case["fault"]["type"] == "echo":
@@ -137,6 +129,10 @@ async def exchange(case):
                 import asyncio
                 await asyncio.sleep(case["fault"]["secs"] + 1)      # let the device finish its late answer
                 await cl.settle()
+        if transient:
+            from ..fake import tcpdev as _t
+            if not _t.EMPTY_READS.get(cl.conn.peer, {}).get("hit"):
+                return "skip", None, [], [], None       # the client never made that read(): nothing was injected
         sent = list(cl.conn.sent)
         frames = list(cl.conn.frames[nbefore:])
         # the caller tries again on the same object (state queries only): whatever the connection is worth by now, the
@@ -148,6 +144,8 @@ async def exchange(case):
                     return "retry-raise", res2, frames, sent, data
         return status, res, frames, sent, data
     finally:
+        from ..fake import tcpdev as _t
+        _t.EMPTY_READS.pop(cl.conn.peer if cl.conn else None, None)
         await cl.close()
 
 
@@ -228,7 +226,7 @@ def body(rep, case, sub=None):
     kind, step, fault = case["kind"], case["step"], case["fault"]
     status, res, frames, sent, data = net.run(exchange(case))
     if status == "skip":
-        rep.label("skipped(reader-not-accessible-or-pre-op-failed)")
+        rep.label("skipped(empty-read-not-reached-or-pre-op-failed)")
         return
     if status == "retry-raise":
         raise Violation(f"C09/state-query-retry-raises-{type(res).__name__}/op={kind}", case, "a parsed response or RuntimeError",
